@@ -49,6 +49,9 @@ func runC09(m *Sim) {
 	cl := w.AddClient("cli0", dev, gca.Pub, []*ServerNode{n}, origin)
 	wide := m.C.Chance("wide-class", 1, 10)
 	cap := &c08Capture{first: map[uint32][]byte{}, count: map[uint32]int{}}
+	// The known-finding class "wide" is decided by the input: timeslots for
+	// which the meter ever wrote a reading outside the 32 bit signed range.
+	wideSlots := map[uint32]bool{}
 	// Every emitted datagram is captured, then lost: the server never holds
 	// anything, so every sync round retransmits everything it may.
 	w.UDPCapture = func(d *Datagram) {
@@ -56,8 +59,10 @@ func runC09(m *Sim) {
 		if !ok || r.Power == 0 || r.Power == 1 {
 			return
 		}
+		// The known-finding class "wide" is decided by the reading itself: the
+		// value first sent live for the slot does not fit 32 signed bits.
 		site := "datagram"
-		if int64(r.Power) != int64(int32(r.Power)) {
+		if wideSlots[r.Slot] {
 			site = "wide"
 		}
 		cap.count[r.Slot]++
@@ -65,11 +70,8 @@ func runC09(m *Sim) {
 			m.Probe("c09.retransmission")
 		}
 		if f, seen := cap.first[r.Slot]; seen {
+			r0, _ := DecodeReport(f)
 			if string(f) != string(d.Data) {
-				r0, _ := DecodeReport(f)
-				if int64(r0.Power) != int64(int32(r0.Power)) {
-					site = "wide"
-				}
 				m.FailLater("C09.identity", site, "two different datagrams were emitted for timeslot %d: power %d, later %d", r.Slot, r0.Power, r.Power)
 			}
 		} else {
@@ -82,7 +84,7 @@ func runC09(m *Sim) {
 			m.FailLater("C09.first", site, "datagram for timeslot %d carries %d but the history holds %d for that slot", r.Slot, r.Power, hv)
 		}
 		if r.Power != uint64(int64(int32(hv))) {
-			m.FailLater("C09.first", "wide", "datagram for timeslot %d carries %d, which is not the stored reading %d sign-extended", r.Slot, r.Power, hv)
+			m.FailLater("C09.first", site, "datagram for timeslot %d carries %d, which is not the stored reading %d sign-extended", r.Slot, r.Power, hv)
 		}
 	}
 	w.UDPPolicy = func(d *Datagram) UDPAction { return UDPDrop }
@@ -108,6 +110,17 @@ func runC09(m *Sim) {
 	if wide {
 		readings = append(readings, "3000000000", "-2200000000", "5000000000000")
 	}
+	nNarrow := len(readings)
+	if wide {
+		nNarrow -= 3
+	}
+	pickReading := func(t int64) string {
+		k := m.C.Int("reading", len(readings))
+		if k >= nNarrow && t >= int64(BubbleEpoch) {
+			wideSlots[uint32((t-int64(BubbleEpoch))/300)] = true
+		}
+		return readings[k]
+	}
 	slot := start
 	edits := 10 + m.C.Int("edits", 50)
 	for i := 0; i < edits; i++ {
@@ -118,13 +131,14 @@ func runC09(m *Sim) {
 			slot++
 			SetSlot(slot)
 			slotsSeen[slot] = true
-			rows = append(rows, fmt.Sprintf("%d,%s", ts(slot), readings[m.C.Int("reading", len(readings))]))
+			tt := ts(slot)
+			rows = append(rows, fmt.Sprintf("%d,%s", tt, pickReading(tt)))
 		case 1: // the meter rewrites an earlier value
 			if len(rows) > 0 {
 				k := m.C.Int("row", len(rows))
 				var t int64
 				fmt.Sscanf(rows[k], "%d,", &t)
-				rows[k] = fmt.Sprintf("%d,%s", t, readings[m.C.Int("reading", len(readings))])
+				rows[k] = fmt.Sprintf("%d,%s", t, pickReading(t))
 				m.Probe("c09.rewrite")
 			}
 		case 2: // a second row for an existing timeslot with another value
@@ -132,7 +146,7 @@ func runC09(m *Sim) {
 				k := m.C.Int("row", len(rows))
 				var t int64
 				fmt.Sscanf(rows[k], "%d,", &t)
-				rows = append(rows, fmt.Sprintf("%d,%s", t+1, readings[m.C.Int("reading", len(readings))]))
+				rows = append(rows, fmt.Sprintf("%d,%s", t+1, pickReading(t+1)))
 				m.Probe("c09.rewrite")
 			}
 		case 3: // reorder
